@@ -85,10 +85,12 @@ def main(argv=None):
     return 0 if status == 'ok' else 2
 
   meta = _load_meta(prop)
-  work = os.path.join(VERIF, '.work', prop)
+  out_base = os.environ.get('VERIF_OUT')  # scratch runs (mutants) write elsewhere
+  work = os.path.join(out_base or os.path.join(VERIF, '.work'), 'work' if out_base else '', prop)
   shutil.rmtree(work, ignore_errors=True)
   os.makedirs(work, exist_ok=True)
-  found_dir = os.path.join(VERIF, 'replays', 'found')
+  found_dir = os.path.join(out_base, 'found') if out_base else os.path.join(VERIF, 'replays', 'found')
+  evidence_dir = os.path.join(out_base, 'evidence') if out_base else os.path.join(VERIF, 'evidence')
   os.makedirs(found_dir, exist_ok=True)
 
   violations = []   # (path, text)
@@ -214,8 +216,8 @@ def main(argv=None):
   }
   if harness_errors:
     ev['coverage']['harness_errors'] = [e[-1500:] for e in harness_errors[:3]]
-  os.makedirs(os.path.join(VERIF, 'evidence'), exist_ok=True)
-  with open(os.path.join(VERIF, 'evidence', prop + '.json'), 'w') as f:
+  os.makedirs(evidence_dir, exist_ok=True)
+  with open(os.path.join(evidence_dir, prop + '.json'), 'w') as f:
     json.dump(ev, f, indent=1, default=str)
 
   # 4. report
